@@ -243,6 +243,89 @@ def known_match(known, prop, witness):
     return None
 
 
+
+# ------------------------------------------------------------------------------------------ shrinking
+
+def _one_shot(pattern, text, pos):
+    """(implementation captures, model captures, reference captures) of one case against the current tree; None if unusable"""
+    d = os.path.join(WORK, 'shrink')
+    shutil.rmtree(d, ignore_errors=True)
+    os.makedirs(d)
+    try:
+        r = subprocess.run([HBIN, 'one', '--pattern', pattern, '--text', text, '--pos', str(pos), '--out', d],
+                           stdout=subprocess.PIPE, stderr=subprocess.STDOUT, text=True, timeout=20)
+    except subprocess.TimeoutExpired:
+        return None
+    req = os.path.join(d, 'req.txt')
+    if r.returncode != 0 or not os.path.exists(req):
+        return None
+    with open(req) as fin:
+        r2 = subprocess.run([DRIVER], stdin=fin, stdout=subprocess.PIPE, stderr=subprocess.PIPE, text=True)
+    for rq, im, mo in zip(open(req).read().split('\n'), open(os.path.join(d, 'impl.txt')).read().split('\n'), r2.stdout.split('\n')):
+        if rq.startswith('caps\t'):
+            mm = mo.split('\t')
+            if len(mm) < 3:
+                return None
+            return im.split('\t')[0], mm[0], mm[2]
+    return None
+
+
+def shrink_engine_case(pattern, text, pos, budget=120):
+    """greedy one-at-a-time shrinking of (pattern, text, pos) keeping 'implementation != reference' on the current tree
+    (spans compared; the pattern must still build). Returns a smaller case or None if the original does not reproduce."""
+    def fails(p, t, q):
+        a = _one_shot(p, t, q)
+        if a is None:
+            return False
+        imp, _, ref = a
+        def span(x):
+            return ' '.join(x.split(' ')[:2]) if x.startswith('m ') else x
+        return (imp.startswith('m ') or imp == 'none') and (ref.startswith('m ') or ref == 'none') and span(imp) != span(ref)
+    if not fails(pattern, text, pos):
+        return None
+    tries = 0
+    changed = True
+    while changed and tries < budget:
+        changed = False
+        # text: drop one character (adjusting the offset)
+        chars = list(text)
+        for i in range(len(chars)):
+            t2 = ''.join(chars[:i] + chars[i + 1:])
+            b = len(''.join(chars[:i]).encode())
+            w = len(chars[i].encode())
+            q2 = pos if pos <= b else (pos - w if pos >= b + w else None)
+            if q2 is None:
+                continue
+            tries += 1
+            if fails(pattern, t2, q2):
+                text, pos, changed = t2, q2, True
+                break
+        if changed:
+            continue
+        # pattern: delete a character, or a balanced parenthesised group, or unwrap a group
+        cands = []
+        for i, ch in enumerate(pattern):
+            cands.append(pattern[:i] + pattern[i + 1:])
+            if ch == '(':
+                depth = 0
+                for j in range(i, len(pattern)):
+                    if pattern[j] == '(' and (j == 0 or pattern[j - 1] != '\\'):
+                        depth += 1
+                    elif pattern[j] == ')' and pattern[j - 1] != '\\':
+                        depth -= 1
+                        if depth == 0:
+                            cands.append(pattern[:i] + pattern[j + 1:])
+                            break
+        for p2 in sorted(set(cands), key=len):
+            if tries >= budget:
+                break
+            tries += 1
+            if fails(p2, text, pos):
+                pattern, changed = p2, True
+                break
+    return dict(pattern=pattern, text=text, pos=pos, shrink_attempts=tries)
+
+
 class Verdict:
     def __init__(self, prop, tier, seed):
         self.prop, self.tier, self.seed = prop, tier, seed
@@ -284,6 +367,14 @@ class Verdict:
             shown += 1
             path = os.path.join(VERIF, 'replays', '%s-%d.json' % (self.prop, shown))
             rec = dict(property=self.prop, seed=self.seed, tier=self.tier, **v)
+            if shown == 1 and v['kind'] == 'failing-input' and v.get('op') == 'caps' and v.get('pattern') and 'text' in v \
+                    and not os.environ.get('VERIF_NO_SHRINK'):
+                try:
+                    m = shrink_engine_case(v['pattern'], v.get('text') or '', int(v.get('pos') or 0))
+                    if m and (m['pattern'], m['text']) != (v['pattern'], v.get('text') or ''):
+                        rec['minimized'] = m
+                except Exception as e:       # shrinking is a convenience: never let it change the verdict
+                    rec['minimized_error'] = str(e)[:200]
             json.dump(rec, open(path, 'w'), indent=1, ensure_ascii=False)
             suffix = '' if (v['kind'] == 'failing-input' or has_input) else ' no-failing-input-found'
             print('VIOLATION property=%s replay=%s%s' % (self.prop, path, suffix))
